@@ -46,11 +46,20 @@ var c15Names = func() []string {
 var foreignNames = []string{"", " ", "add", "ADD", "Add ", " Add", "Add\x00", "Relu6", "relu", "Pow", "MaxPool", "AveragePool", "Clip", "LeakyRelu",
 	"BatchNormalization", "Sqrt", "Exp", "Log", "Neg", "Min", "Max", "Sum", "ReduceSum", "ReduceMean", "Where", "Identity", "Dropout", "Pad",
 	"Tile", "Split", "Resize", "GlobalAveragePool", "Loop", "If", "Scan", "ArgMin", "Lstm", "lstm", "Gru", "Rnn", "MatMulInteger", "Gemm13",
-	"ConstantOfshape", "Constant_", "com.microsoft.Gelu", "ai.onnx.Add", "Add:13", "Conv2D", "QLinearConv", "é", "Ａdd", "Softmax\n"}
+	"ConstantOfshape", "Constant_", "com.microsoft.Gelu", "ai.onnx.Add", "Add:13", "Conv2D", "QLinearConv", "é", "Ａdd", "Softmax\n",
+	"Top%", "Foo%vBar", "%s", "%w", "Scale%dx", "%", "Relu%!", "Add%w"}
 
 // goNativeDtypes are gorgonia element types that no ONNX type maps to; no gate
 // may let them through (ops.AllTypes lists the ONNX types only).
-var goNativeDtypes = []tensor.Dtype{tensor.Int, tensor.Uint, tensor.Uintptr}
+var goNativeDtypes = []tensor.Dtype{tensor.Int, tensor.Uint, tensor.Uintptr,
+	{Type: reflect.TypeOf(celsius(0))}, {Type: reflect.TypeOf(ticks(0))}, {Type: reflect.TypeOf(flag(false))}}
+
+// user-named element types: their Kind is an ONNX type's Kind, their Type is not
+type (
+	celsius float32
+	ticks   int64
+	flag    bool
+)
 
 func gateDtypeName(d int) string {
 	if d < len(gen.All14) {
@@ -60,12 +69,13 @@ func gateDtypeName(d int) string {
 }
 
 type gateCase struct {
-	op    string
-	n     int // number of inputs supplied
-	pos   int // position carrying the probed dtype (-1: none)
-	dt    int // index into gen.All14 (for pos >= 0)
-	nilAt int // optional position supplied as nil (-1: none)
-	empty bool // the probe tensor has zero elements (shape (0)): the gate looks at types, not at sizes
+	op     string
+	n      int  // number of inputs supplied
+	pos    int  // position carrying the probed dtype (-1: none)
+	dt     int  // index into gen.All14 (for pos >= 0)
+	nilAt  int  // optional position supplied as nil (-1: none)
+	empty  bool // the probe tensor has zero elements (shape (0)): the gate looks at types, not at sizes
+	scalar bool // the probe tensor has rank 0
 }
 
 // c15Enumerate lists the complete finite space of the property.
@@ -87,6 +97,7 @@ func c15Enumerate() []gateCase {
 					}
 					out = append(out, gateCase{op: name, n: n, pos: pos, dt: d, nilAt: -1})
 					out = append(out, gateCase{op: name, n: n, pos: pos, dt: d, nilAt: -1, empty: true})
+					out = append(out, gateCase{op: name, n: n, pos: pos, dt: d, nilAt: -1, scalar: true})
 					// ... combined with nil at every optional position (an omitted input in
 					// the middle of the list must not switch the type check off for later ones)
 					for nilAt := ar[0]; nilAt < n; nilAt++ {
@@ -120,7 +131,7 @@ func init() {
 		},
 		Run:            c15Run,
 		Floor:          func(tier string) int { return 5000 },
-		Rule:           "complete enumeration: 55 operators x input count 0..max+2 (Concat 0..12) x each of the 14 ONNX element types and of 3 gorgonia element types that are not ONNX types (int, uint, uintptr), each probe also as a tensor with zero elements at each supplied position (other positions carry an allowed type) x nil at each optional position (alone and combined with every type probe at every other position); every second list is a prefix of a larger array with other tensors behind its length, through Operator.ValidateInputs of a fresh instance from opset13.GetOperator; arities cross-checked against an independent table typed in from the ONNX spec. Then 400 registry cases: every name resolves, repeated lookups are state-independent (a fresh instance prints identically before and after another instance of the same name was Init-ed with non-default attributes and applied), foreign names yield ErrUnsupportedOperator; and single-node models observed through the operator proxy: a rejected gate is never followed by an apply event. A gate case is non-trivial when it is rejected or pads optional inputs; distinct = distinct (op, count, position, dtype, nil position).",
+		Rule:           "complete enumeration: 55 operators x input count 0..max+2 (Concat 0..12) x each of the 14 ONNX element types and of 3 gorgonia element types that are not ONNX types (int, uint, uintptr), plus three user-named Go types whose Kind is an ONNX kind, each ONNX probe also as a tensor with zero elements and as a rank-0 tensor at each supplied position (other positions carry an allowed type) x nil at each optional position (alone and combined with every type probe at every other position); every second list is a prefix of a larger array with other tensors behind its length, through Operator.ValidateInputs of a fresh instance from opset13.GetOperator; arities cross-checked against an independent table typed in from the ONNX spec. Then 400 registry cases: every name resolves, repeated lookups are state-independent (a fresh instance prints identically before and after another instance of the same name was Init-ed with non-default attributes and applied), foreign names yield ErrUnsupportedOperator; and single-node models observed through the operator proxy: a rejected gate is never followed by an apply event. A gate case is non-trivial when it is rejected or pads optional inputs; distinct = distinct (op, count, position, dtype, nil position).",
 		Exhaustive:     func(tier string) bool { return true },
 		RaceInThorough: true,
 		Technique:      "runtime monitoring: exhaustive enumeration of the finite gate space against the operators' declared constraints and an independent ONNX arity table; proxy trace check 'no apply after a failed validate'",
@@ -140,7 +151,7 @@ func c15Run(c *Ctx) {
 		idx = (c.Idx*4 + int(c.Seed%4)) % len(c15Space)
 	}
 	gc := c15Space[idx]
-	c.SetCase("gate %s: %d inputs, dtype %v at position %d (zero elements: %v), nil at %d", gc.op, gc.n, gateDtypeName(gc.dt), gc.pos, gc.empty, gc.nilAt)
+	c.SetCase("gate %s: %d inputs, dtype %v at position %d (zero elements: %v, rank 0: %v), nil at %d", gc.op, gc.n, gateDtypeName(gc.dt), gc.pos, gc.empty, gc.scalar, gc.nilAt)
 	o := mon.Capture(nil, func() ([]tensor.Tensor, error) { return nil, c15Gate(c, gc) })
 	if o.Kind == mon.Panic {
 		c.Violation("gate:"+gc.op+":panic", "input gate panicked: %s", o.Describe())
@@ -223,11 +234,20 @@ func c15Gate(c *Ctx, gc gateCase) error {
 			in[i] = tensor.New(tensor.WithShape(2), tensor.WithBacking([]uint{1, 2}))
 		case tensor.Uintptr:
 			in[i] = tensor.New(tensor.WithShape(2), tensor.WithBacking([]uintptr{1, 2}))
+		case goNativeDtypes[3]:
+			in[i] = tensor.New(tensor.WithShape(2), tensor.WithBacking([]celsius{1, 2}))
+		case goNativeDtypes[4]:
+			in[i] = tensor.New(tensor.WithShape(2), tensor.WithBacking([]ticks{1, 2}))
+		case goNativeDtypes[5]:
+			in[i] = tensor.New(tensor.WithShape(2), tensor.WithBacking([]flag{true, false}))
 		default:
 			rd, _ := mon.RefDtype(d)
 			shape := []int{2}
 			if gc.empty && i == gc.pos {
 				shape = []int{0}
+			}
+			if gc.scalar && i == gc.pos {
+				shape = []int{}
 			}
 			in[i] = mon.ToTensor(c.R.Tensor(rd, shape, gen.FillUnique, 0))
 		}
@@ -257,7 +277,7 @@ func c15Gate(c *Ctx, gc gateCase) error {
 	}
 	expectCountErr := gc.n < ar[0] || (!variadic && gc.n > ar[1])
 	out, verr := op.ValidateInputs(in)
-	desc := fmt.Sprintf("%s|%d|%d|%d|%d|%v", gc.op, gc.n, gc.pos, gc.dt, gc.nilAt, gc.empty)
+	desc := fmt.Sprintf("%s|%d|%d|%d|%d|%v|%v", gc.op, gc.n, gc.pos, gc.dt, gc.nilAt, gc.empty, gc.scalar)
 	if expectCountErr || expectTypeErr || gc.n < effMax {
 		c.Nontrivial(desc)
 	}
@@ -483,6 +503,14 @@ func c15Independence(c *Ctx, name string) {
 			}
 			return other.Apply(in)
 		})
+		if v%4 == 1 {
+			// what GetInputTypeConstraints returns belongs to the caller: replacing its entries
+			// must not change what any other instance accepts
+			cons := other.GetInputTypeConstraints()
+			for i := range cons {
+				cons[i] = []tensor.Dtype{tensor.Complex128}
+			}
+		}
 		fresh2, _ := opset13.GetOperator(name)
 		c.Eval(3)
 		if s2 := render(fresh2); s2 != s1 {
